@@ -44,6 +44,9 @@ THEOREMS = [
     "Optyx.Props.C10.shape_mismatch_raises",
     "Optyx.Props.C10.reflected_dispatch",
     "Optyx.Props.C10.compare_meaning",
+    "Optyx.Props.Glue.makeConstraint_shape",
+    "Optyx.Props.Glue.scipyConstraint_agrees",
+    "Optyx.Props.Glue.conRow_table",
 ]
 ASSUMPTIONS = [
     "values are reals (ordered field); IEEE rounding of lhs - rhs is not modelled",
